@@ -117,3 +117,23 @@ Theorem C09_additional_args_is_the_source : forall {T} (keq : T -> T -> bool) (s
   PCD.Gen.SrcTables.additional_args keq st = additional_args keq st.
 Proof. intros. apply SrcTablesTie.additional_args_tie. Qed.
 Print Assumptions C09_additional_args_is_the_source.
+
+(* the state bytes_to_blocks starts decoding from: the four tables, varnames with the parameters preset as found, and - for a
+   function whose docstring is not None, the empty string included - constant 0 marked as found before any instruction is read
+   (so that the docstring is never reported as an unreferenced extra, and no later constant is found "one rank early").
+   Re-translated on every run (Gen/SrcIter.v, dec_init); the model's bytes_to_blocks is that state followed by the loops. *)
+From PCD Require Gen.SrcIter Proofs.SrcDecPrologueTie.
+Theorem C09_decoder_prologue_is_the_source : forall {C} (keq : C -> C -> bool) names varnames cellvars (constants : list C) bt a,
+  PCD.Gen.SrcIter.dec_init keq names varnames cellvars constants bt a
+  = SrcDecPrologueTie.model_dec_init keq names varnames cellvars constants bt a.
+Proof. intros. apply SrcDecPrologueTie.dec_init_tie. Qed.
+Print Assumptions C09_decoder_prologue_is_the_source.
+
+Theorem C09_bytes_to_blocks_starts_from_that_state : forall {C} (keq : C -> C -> bool) c b lm names varnames freevars cellvars constants bt a,
+  bytes_to_blocks keq c b lm names varnames freevars cellvars constants bt a
+  = match SrcDecPrologueTie.model_dec_init keq names varnames cellvars constants bt a with
+    | Err e => Err e
+    | OK st1 => SrcDecPrologueTie.decode_from keq c b lm freevars st1
+    end.
+Proof. intros. apply SrcDecPrologueTie.bytes_to_blocks_starts_from_dec_init. Qed.
+Print Assumptions C09_bytes_to_blocks_starts_from_that_state.
